@@ -310,7 +310,8 @@ def name_strip_once(ctx):
     ctx.rule(R, 'between a source path and the default output name the '
              'extension is stripped at most once (default_name + output_file '
              'of one tool class), so stems that contain dots stay distinct '
-             '(calc.c vs calc.tab.c)')
+             '(calc.c vs calc.tab.c); output_file takes no decision on the '
+             'content of the name')
     repo = ctx.repo
     n = 0
     for ci in sorted(repo.classes.values(), key=lambda c: c.fq):
